@@ -42,6 +42,22 @@ def main(argv):
         res.cov.update(evaluations=1, distinct_nontrivial=0, rule="build failed before any case ran", samples=[e.what])
         res.violation({"kind": "build", "broken": [e.what], "log_tail": e.log[-3000:]}, no_input=True)
         return res.finish("n/a")
+    except core.ImplHang as e:
+        # the model (which runs on fuel) answers this input, the real crate does not return
+        res = core.Result(prop, tier, seed)
+        res.oblige("implementation returns on every generated input (no answer within %.0fs)" % core.STALL_S, False)
+        f = e.line.split("\t")
+        dec = []
+        for x in f[:2]:
+            try:
+                dec.append(core.unhex(x).decode("utf-8"))
+            except Exception:
+                dec.append(x)
+        res.cov.update(evaluations=1, distinct_nontrivial=1, rule="the run was cut at the first input on which the implementation did not return", samples=[e.line[:300]])
+        res.violation({"kind": "input", "check": "the implementation returns (the model answers this input within its fuel)", "mode": e.mode,
+                       "pattern": dec[0] if dec else "", "text": dec[1] if len(dec) > 1 else "", "harness_line": e.line,
+                       "how": "printf '%s\\n' '<harness_line>' | harness/target/release/frh " + e.mode}, no_input=False)
+        return res.finish("n/a")
     except Exception as e:
         from .gen_consts import TieError
         if isinstance(e, TieError):
